@@ -88,6 +88,36 @@ func elem(shape string, j int, c *ctr) jl.Node {
 		return jl.Int(int64(50 + j))
 	case "str":
 		return jl.Str("t" + strconv.Itoa(j))
+	case "num": // member a: an int, a fractional float, a negative float, a string, null, absent (mixed int / float ordering)
+		switch j % 7 {
+		case 0:
+			return jl.Obj("a", jl.Int(8), "b", c.next())
+		case 1:
+			return jl.Obj("a", jl.Flt(35, 2), "b", c.next()) // 8.75
+		case 2:
+			return jl.Obj("a", jl.Flt(-5, 1), "b", c.next()) // -2.5
+		case 3:
+			return jl.Obj("a", jl.Int(-2), "b", c.next())
+		case 4:
+			return jl.Obj("a", jl.Str("s"), "b", c.next())
+		case 5:
+			return jl.Obj("a", jl.Null(), "b", c.next())
+		}
+		return jl.Obj("b", c.next())
+	case "numel": // the element itself
+		switch j % 6 {
+		case 0:
+			return jl.Int(8)
+		case 1:
+			return jl.Flt(35, 2)
+		case 2:
+			return jl.Flt(-5, 1)
+		case 3:
+			return jl.Int(-2)
+		case 4:
+			return jl.Flt(1, 1) // 0.5
+		}
+		return jl.Str("s")
 	case "rkobj": // an element that has its own rk member: resolving `$.rk...` against the element gives another truth than against the root
 		return jl.Obj("a", jl.Int(int64(10+j)), "b", jl.Str("s"+strconv.Itoa(j)), "rk", jl.Arr(jl.Int(int64(100+j))))
 	case "scal": // the element itself is null / an int / a string / an object / an array (scripts on `@` and on a member of it)
@@ -370,6 +400,20 @@ func matrix(args []string) {
 			}
 		}
 	}
+	// ordering comparisons across int and float (by value): fractional float constants against int / float members and elements, both sides
+	for _, f := range cmpFilters() {
+		shape := "num"
+		if f["op"] == "cmps" {
+			shape = "numel"
+		}
+		for _, ct := range []cont{{"arr", 0}, {"arr", 4}, {"arr", 7}, {"obj", 4}} {
+			c := &ctr{n: 100}
+			d := mkCont(ct, shape, c)
+			emit(2, []jl.Frag{jl.FRoot(), f}, d)
+			emit(3, []jl.Frag{jl.FRoot(), jl.FChild("p"), f}, jl.Obj("p", d, "q", jl.Int(9999)))
+			emit(2, []jl.Frag{jl.FRoot(), f, jl.FChild("b")}, d)
+		}
+	}
 	// scripts that are TRUE on a null element (and on scalar / container elements): the element itself is the operand
 	for _, f := range []jl.Frag{
 		jl.FFilter("eqs", "", jl.Null()), jl.FFilter("nes", "", jl.Null()), jl.FFilter("eqs", "", jl.Int(3)), jl.FFilter("nes", "", jl.Int(3)),
@@ -471,6 +515,17 @@ func rowsDoc(objCont bool) jl.Node {
 		rows = jl.Arr(els...)
 	}
 	return jl.Obj("q", jl.Int(9999), "rows", rows)
+}
+
+// cmpFilters: `@.a <cmp> c`, `c <cmp> @.a`, `@ <cmp> c` with c = 8.75, -2.5, 0.5, 8 (ints against float members too)
+func cmpFilters() []jl.Frag {
+	out := []jl.Frag{}
+	for _, c := range []jl.Node{jl.Flt(35, 2), jl.Flt(-5, 1), jl.Flt(1, 1), jl.Int(8), jl.Int(-2)} {
+		for _, cmp := range []string{"lt", "gt", "le", "ge"} {
+			out = append(out, jl.FFilterCmp("a", cmp, false, c), jl.FFilterCmp("a", cmp, true, c), jl.FFilterCmp("", cmp, false, c))
+		}
+	}
+	return out
 }
 
 func multiBeforeDescent() []jl.Frag {
